@@ -14,20 +14,39 @@ slicing of &str; the shim's precondition is exactly "a <= b and both are char bo
 LX = "crates/apollo-parser/src/lexer/mod.rs"
 
 PRELUDE = r'''
+// @@begin hex
+pub open spec fn hexdigit(c: char) -> bool { ('0' <= c <= '9') || ('a' <= c <= 'f') || ('A' <= c <= 'F') }
+/// value of a hex digit, of a run of hex digits (most significant first)
+pub open spec fn hexval(c: char) -> int { if '0' <= c <= '9' { c as int - 48 } else if 'a' <= c <= 'f' { c as int - 87 } else { c as int - 55 } }
+pub open spec fn hex_value(s: Seq<char>) -> int decreases s.len() { if s.len() == 0 { 0 } else { hex_value(s.drop_last()) * 16 + hexval(s.last()) } }
+/// the surrogate block: not Unicode scalar values, so `\uD800` .. `\uDFFF` do not denote a character (and pairs of them are the documented unsupported form)
+pub open spec fn surrogate(v: int) -> bool { 0xD800 <= v <= 0xDFFF }
+/// value of the last four characters of `s` read as hex digits
+pub open spec fn hex4(s: Seq<char>) -> int { hexval(s[s.len() - 4]) * 4096 + hexval(s[s.len() - 3]) * 256 + hexval(s[s.len() - 2]) * 16 + hexval(s[s.len() - 1]) }
+pub proof fn lemma_hex4(s: Seq<char>, h: Seq<char>)
+    requires s.len() >= 4, h =~= s.subrange(s.len() - 4, s.len() as int)
+    ensures hex_value(h) == hex4(s)
+{
+    let h3 = h.drop_last(); let h2 = h3.drop_last(); let h1 = h2.drop_last();
+    assert(h1.drop_last().len() == 0);
+    reveal_with_fuel(hex_value, 5);
+    assert(h3.last() == h[2] && h2.last() == h[1] && h1.last() == h[0]);
+}
+// @@end hex
 // ---------------- std specs (assumed) ----------------
 pub assume_specification[ char::is_ascii_digit ](c: &char) -> (r: bool) ensures r == ('0' <= *c <= '9');
 pub assume_specification[ char::is_ascii_hexdigit ](c: &char) -> (r: bool)
     ensures r == (('0' <= *c <= '9') || ('a' <= *c <= 'f') || ('A' <= *c <= 'F'));
 
-pub open spec fn hexdigit(c: char) -> bool { ('0' <= c <= '9') || ('a' <= c <= 'f') || ('A' <= c <= 'F') }
 #[verifier::external_type_specification]
 #[verifier::external_body]
 pub struct ExParseIntError(core::num::ParseIntError);
 // u32::from_str_radix: 1..=8 hex digits always fit a u32 (std documentation) -- assumed
 pub assume_specification[ u32::from_str_radix ](src: &str, radix: u32) -> (r: Result<u32, core::num::ParseIntError>)
-    ensures (radix == 16 && 1 <= src@.len() <= 8 && forall|i: int| 0 <= i < src@.len() ==> hexdigit(#[trigger] src@[i])) ==> r is Ok;
-pub assume_specification[ char::from_u32 ](i: u32) -> (r: Option<char>);
-
+    ensures (radix == 16 && 1 <= src@.len() <= 8 && forall|i: int| 0 <= i < src@.len() ==> hexdigit(#[trigger] src@[i])) ==> r is Ok && r->Ok_0 as int == hex_value(src@);
+// char::from_u32: "None if the input is not a valid value for a char" -- a char is a Unicode scalar value: not a surrogate, at most 0x10FFFF (std documentation) -- assumed
+pub assume_specification[ char::from_u32 ](i: u32) -> (r: Option<char>)
+    ensures r is Some <==> !surrogate(i as int) && i <= 0x10FFFF, r is Some ==> r->0 as u32 == i;
 // ---- UTF-8 byte offsets of a &str (what `&s[a..b]` needs) ----
 pub open spec fn utf8_len(c: char) -> int { if (c as u32) < 0x80 { 1 } else if (c as u32) < 0x800 { 2 } else if (c as u32) < 0x10000 { 3 } else { 4 } }
 /// byte offset of the k-th char
@@ -81,11 +100,13 @@ pub open spec fn spec_punct(c: char) -> Option<TokenKind> {
     else if c == ']' { Some(TokenKind::RBracket) } else if c == '{' { Some(TokenKind::LCurly) } else if c == '|' { Some(TokenKind::Pipe) }
     else if c == '}' { Some(TokenKind::RCurly) } else if c == ',' { Some(TokenKind::Comma) } else { None }
 }
+// @@begin char_classes
 pub open spec fn name_start(c: char) -> bool { ('a' <= c <= 'z') || ('A' <= c <= 'Z') || c == '_' }
 pub open spec fn name_cont(c: char) -> bool { name_start(c) || ('0' <= c <= '9') }
 pub open spec fn digit(c: char) -> bool { '0' <= c <= '9' }
 pub open spec fn ws(c: char) -> bool { c == '\u{9}' || c == ' ' || c == '\n' || c == '\r' || c == '\u{FEFF}' }
 pub open spec fn line_term(c: char) -> bool { c == '\n' || c == '\r' }
+// @@end char_classes
 pub mod lookup {
     use super::*;
     #[verifier::external_body]
@@ -225,6 +246,7 @@ pub proof fn lemma_byte_off_monotone(cs: Seq<char>, a: int, b: int)
     if a < b { lemma_byte_off_monotone(cs, a, b - 1); }
 }
 
+// @@begin string_grammar
 // ---- StringValue :: `""` | `"` StringCharacter+ `"` | `"""` BlockStringCharacter* `"""` ----
 // StringCharacter :: SourceCharacter but not `"` or `\` or LineTerminator | \u EscapedUnicode | \ EscapedCharacter
 // (left-linear form again: each predicate describes a prefix that starts with the opening quote)
@@ -238,7 +260,7 @@ pub open spec fn q_body(s: Seq<char>) -> bool decreases s.len(), 2int {
     s.len() >= 2 && (
         (plain_string_char(s.last()) && (q_open(s.drop_last()) || q_body(s.drop_last())))
         || (escaped_character(s.last()) && q_backslash(s.drop_last()))
-        || (hexdigit(s.last()) && q_unicode(s.drop_last(), 1)))
+        || (hexdigit(s.last()) && q_unicode(s.drop_last(), 1) && !surrogate(hex4(s))))
 }
 /// ... followed by a backslash
 #[verifier::opaque]
@@ -266,7 +288,7 @@ pub proof fn lemma_string_step(s: Seq<char>, c: char)
         (q_backslash(s) && escaped_character(c)) ==> q_body(s.push(c)),
         (q_backslash(s) && c == 'u') ==> q_unicode(s.push(c), 4),
         forall|rem: int| (#[trigger] q_unicode(s, rem) && hexdigit(c) && 1 < rem <= 4) ==> q_unicode(s.push(c), rem - 1),
-        (q_unicode(s, 1) && hexdigit(c)) ==> q_body(s.push(c)),
+        (q_unicode(s, 1) && hexdigit(c) && !surrogate(hex4(s.push(c)))) ==> q_body(s.push(c)),
         ((q_open(s) || q_body(s)) && c == '"') ==> is_quoted_string(s.push(c)),
         (q_open(s) || q_body(s) || q_backslash(s)) ==> s.len() >= 1 && s[0] == '"',
         forall|rem: int| #[trigger] q_unicode(s, rem) ==> s.len() >= 1 && s[0] == '"' && 1 <= rem <= 4,
@@ -301,6 +323,7 @@ pub proof fn lemma_unicode_prefix_starts_with_quote(s: Seq<char>, rem: int)
     }
 }
 
+// @@end string_grammar
 /// what a successfully returned token must be: the right kind for its text, and maximal
 pub open spec fn token_ok(kind: TokenKind, s: Seq<char>, next: Option<char>) -> bool {
     match kind {
@@ -402,6 +425,13 @@ pub open spec fn item_text<'a>(r: Result<Token<'a>, Error>) -> Seq<char> { match
 # ---- contracts of Cursor's primitives over the ghost model CM: assumed by this unit (generated shim below), PROVED for the extracted
 # ---- bodies of lexer/cursor.rs in unit `cursor` (same clause lists)
 O, F_ = "old(self).m@", "final(self).m@"
+def section(name):
+    """A marked part of the prelude (`// @@begin NAME` .. `// @@end NAME`), for units that share these definitions by text."""
+    a = PRELUDE.index("// @@begin %s\n" % name)
+    b = PRELUDE.index("// @@end %s\n" % name)
+    return PRELUDE[a:b]
+
+
 FRAME = "final(self).source == old(self).source, final(self).err == old(self).err, final(self).m@.chars == old(self).m@.chars"
 CURSOR_PRIMS = {
     "is_pending": dict(sig="pub fn is_pending(&self) -> (r: bool)", doc="", requires=[], ensures=["r == self.m@.pending"]),
@@ -526,7 +556,7 @@ UNIT = {
              hints=[("body_start", None, "proof { reveal_strlit(\"\"); }"),
                     ("before", "match state {", "proof { let s0 = self.m@.chars.subrange(self.m@.start as int, self.m@.read - 1); lemma_step(s0, c); lemma_escape_step(s0, c); lemma_string_step(s0, c); assert(consumed(&*self) =~= s0.push(c)); }"),
                     ("before", "let hex_end = self.offset + 1;", "proof { lemma_escape_bytes(self.m@.chars, self.m@.start as int, self.m@.read as int); }"),
-                    ("after", "let hex = str_slice(self.source, hex_start, hex_end);", "proof { assert(hex@ =~= self.m@.chars.subrange(self.m@.read - 4, self.m@.read as int)); }")],
+                    ("after", "let hex = str_slice(self.source, hex_start, hex_end);", "proof { assert(hex@ =~= self.m@.chars.subrange(self.m@.read - 4, self.m@.read as int)); let t = consumed(&*self); reveal(escape_complete); assert(hex@ =~= t.subrange(t.len() - 4, t.len() as int)); lemma_hex4(t, hex@); }")],
              props=["C03", "C01", "C02"]),
     ],
 }
